@@ -282,7 +282,22 @@ def rule_wire_intra(ctx):
             pass
         # the second call may sit in a closure of the function (iterator adaptor): then the first must dominate closure creation
         fn = Fn(f)
-        a_blocks = [bi for bi, t in fn.calls() if fa(t)]
+
+        def reaches(t, pred, depth=0):
+            """the call satisfies `pred`, or is a call of a workspace helper whose body (two levels) makes such a call on every run:
+            some call satisfying it dominates the helper's return"""
+            if pred(t):
+                return True
+            k2 = t.get("resolved_key") or (t.get("callee_key") if not t.get("callee_trait") else None)
+            if depth >= 2 or k2 not in fx.fns or fx.fns[k2]["crate"] not in fx.crates or "{closure" in k2 or k2 == key:
+                return False
+            hfn = Fn(fx.fns[k2])
+            rets = [b for b in hfn.reach if fx.fns[k2]["blocks"][b]["term"]["k"] == "return"]
+            for hb, ht in hfn.calls():
+                if reaches(ht, pred, depth + 1) and rets and all(hfn.dominates(hb, r) for r in rets):
+                    return True
+            return False
+        a_blocks = [bi for bi, t in fn.calls() if reaches(t, fa)]
         b_blocks = [bi for bi, t in fn.calls() if fb(t)]
         closures = [k for k, g in fx.fns.items() if g.get("parent") == key and "{promoted" not in k]
         for ck in closures:
